@@ -1,1 +1,1770 @@
-// stub
+//! Reference (big-step) interpreter for samlang over the *checked source AST*.
+//!
+//! This is the oracle of the harness: it implements the language's evaluation rules as written in
+//! `packages/samlang-website/spec.md` (sections 4-8 and 10) directly on
+//! `samlang_ast::source::Module<Arc<Type>>`.  Nothing here is derived from the compiler's
+//! lowering (HIR/MIR/LIR); the only things taken from the checker's output are the facts that are
+//! part of the *resolved program*: which module a class name refers to (`E::ClassId`), and whether
+//! `a.b` is a field access or a member (method / function) access.  Field and variant positions
+//! (`field_order`, `tag_order`) computed by the checker are deliberately NOT used: fields and
+//! variants are resolved by name against the class definition, and lambdas capture their whole
+//! lexical environment instead of the checker's `captured` set.
+//!
+//! Places where the spec and the implementation are known to disagree, and what is done here:
+//!  * call evaluation order: spec 6.7.5 / 6.15 say "arguments, then callee"; every stage of the
+//!    implementation (and the e2e snapshot) evaluates the CALLEE expression first and then the
+//!    arguments left to right.  We follow the implementation: callee (for `obj.m(args)`: `obj`),
+//!    then arguments left to right.
+//!  * `==` / `!=` on values that are not int / bool / unit / Str: the spec (6.9) promises
+//!    structural equality, the implementation compares references.  The result is
+//!    representation dependent, so the run ends with `Ending::Harness("== on non-primitive")`
+//!    (inconclusive).  `Vec.eq` compares elements by value for int/bool/unit/Str and by object
+//!    identity (`Rc::ptr_eq`) otherwise, as documented in spec 5.12.
+//!  * integer overflow and division by zero are implementation defined: we compute with wrapping
+//!    i32 arithmetic and raise `ub.overflow`; `/` and `%` by zero (and INT_MIN / -1, INT_MIN % -1)
+//!    raise `ub.div_zero` and END the run with `Ending::ArithTrap("div by zero")`.
+//!  * `toInt` on a non canonical numeral: `ub.bad_to_int`, value 0, run continues.
+//!  * string literals: the AST holds the text between the quotes with only `\"` unescaped by the
+//!    parser.  The language (spec 2.2) defines escapes, so literals are evaluated through
+//!    [`unescape_literal`]; `RefStats::escape_literals` / `quote_literals` count evaluated literals
+//!    that contained a backslash / a (formerly escaped) double quote, because the backends are
+//!    known to disagree on those.
+//!  * literal patterns (spec 8.3) do not exist in the AST (the parser has no such production), so
+//!    there is nothing to interpret.
+//!
+//! Stack depth / tail calls.  The implementation rewrites *self tail calls* into loops, so deep
+//! self tail recursion never exhausts the stack of compiled code.  The interpreter models that
+//! with a real trampoline: a call that is in tail position of the function currently executing
+//! (function body; final expression of a block; branch of `if`; arm of `match`; right operand of
+//! `&&` / `||` - i.e. the expression whose value *is* the function's result) and whose resolved
+//! target (after dynamic dispatch for methods) is that same class member does not recurse and
+//! does not count towards the depth: the arguments are rebound and the body is re-entered.
+//! Lambda bodies are never trampolined (neither does the implementation).  `let r = f(..); r` is
+//! not treated as a tail call.  Every other call (functions, methods, closures) adds 1 to the
+//! depth; depth > `limits.max_depth` ends the run with `Ending::StackExhausted`.
+//! The interpreter itself is host-recursive; it runs on a dedicated thread with a 2 GiB stack
+//! (falling back to smaller sizes if the mapping is refused), and additionally checks the host
+//! stack actually used at every call: if less than 1/16 of the stack remains the run also ends
+//! with `StackExhausted` instead of crashing the process.  Values are dropped iteratively (custom
+//! `Drop`), so million-element linked structures cannot overflow the stack when released.
+//! Any internal invariant failure (including a host panic) becomes `Ending::Harness`.
+
+use crate::trace::{Ending, Limits, Trace, UbFlags};
+use samlang_ast::source::{
+  ClassMemberDefinition, Literal, Module, Toplevel, TypeDefinition, expr, pattern,
+};
+use samlang_checker::type_::Type;
+use samlang_heap::{Heap, ModuleReference, PStr};
+use std::cell::RefCell;
+use std::collections::HashMap;
+use std::hash::{BuildHasherDefault, Hasher};
+use std::rc::Rc;
+use std::sync::Arc;
+
+type T = Arc<Type>;
+type E = expr::E<T>;
+type Pat = pattern::MatchingPattern<T>;
+
+// ------------------------------------------------------------------------------------------------
+// public data
+// ------------------------------------------------------------------------------------------------
+
+#[derive(Clone, Debug, Default, PartialEq, Eq)]
+pub struct RefStats {
+  /// expression nodes evaluated
+  pub steps: u64,
+  /// deepest call depth reached (self tail calls do not count)
+  pub max_depth: usize,
+  /// calls of class members (functions + methods), including trampolined ones
+  pub calls: u64,
+  /// `match` expressions evaluated
+  pub matches: u64,
+  /// calls of function values (lambdas, method / function references)
+  pub closures_called: u64,
+  /// self tail calls executed as loop iterations
+  pub tail_calls: u64,
+  /// evaluated string literals whose text contains a backslash (escape sequence)
+  pub escape_literals: u64,
+  /// evaluated string literals whose text contains `"` (was `\"` in the source)
+  pub quote_literals: u64,
+  /// `==` / `!=` / `Vec.eq` element comparisons on heap values (class instances, functions, Vec),
+  /// decided by reference identity
+  pub object_eq: u64,
+  /// those among `object_eq` whose outcome is representation dependent: the two values are
+  /// distinct objects that are not obviously different (not two different variants of one enum),
+  /// so structural equality (spec 6.9) or an unboxed representation could say "equal" where
+  /// identity said "different".  Runs with a non-zero count depend on unspecified behaviour if
+  /// the program's output depends on these comparisons.
+  pub ambiguous_object_eq: u64,
+  /// largest host stack use observed (bytes)
+  pub host_stack_bytes: usize,
+}
+
+impl RefStats {
+  /// true if some evaluated literal needed escape processing (backslash or escaped quote)
+  pub fn saw_escaped_literal(&self) -> bool {
+    self.escape_literals > 0 || self.quote_literals > 0
+  }
+}
+
+/// static description of a class, shared by all its instances (class identity = `id`)
+#[derive(Debug)]
+pub struct ClassMeta {
+  /// unique per (module, class name) within one run
+  pub id: u32,
+  pub module: String,
+  pub name: String,
+  /// struct classes: field names in declaration order
+  pub fields: Vec<String>,
+  /// enum classes: variant names in declaration order
+  pub variants: Vec<String>,
+}
+
+/// heap object of a struct class (tag = 0) or an enum class (tag = variant index)
+pub struct Obj {
+  pub meta: Rc<ClassMeta>,
+  pub tag: u32,
+  pub fields: Vec<Value>,
+}
+
+/// growable vector object; `cap` is only a hint used to answer `capacity()`
+pub struct VecObj {
+  pub items: Vec<Value>,
+  pub cap: usize,
+}
+
+#[derive(Clone, Copy, Debug, PartialEq, Eq)]
+enum Builtin {
+  Println,
+  Panic,
+  FromInt,
+  ToInt,
+  VecEmpty,
+  VecOf,
+  VecWithCapacity,
+  VecLength,
+  VecCapacity,
+  VecReserve,
+  VecPush,
+  VecPop,
+  VecGet,
+  VecSet,
+  VecEq,
+}
+
+#[derive(Clone, Copy, Debug, PartialEq, Eq)]
+enum Callable {
+  /// user function / method, index into Program::fns
+  Fn(usize),
+  /// `Class.init` (tag None) or `Class.Variant` (tag Some(i)); class index into Program::classes
+  Ctor { class: usize, tag: Option<u32> },
+  Builtin(Builtin),
+}
+
+enum CloKind {
+  /// lambda expression + the lexical environment at its creation.  The raw pointer points into
+  /// the checked AST that `run` borrows; it is only dereferenced inside that same `run`.
+  Lambda { lam: *const expr::Lambda<T>, env: Vec<(PStr, Value)> },
+  /// `Class.function`, `Class.init`, `Class.Variant`, builtin, or `obj.method` (recv = Some)
+  Member { callable: Callable, recv: Option<Value>, label: String },
+}
+
+/// opaque function value
+pub struct Closure {
+  kind: CloKind,
+}
+
+#[derive(Clone)]
+pub enum Value {
+  Unit,
+  Int(i32),
+  Bool(bool),
+  Str(Rc<str>),
+  /// instance of a struct class (tuples are instances of std.tuples.Pair/Triple/TupleN)
+  Struct(Rc<Obj>),
+  /// instance of an enum class
+  Variant(Rc<Obj>),
+  Closure(Rc<Closure>),
+  Vec(Rc<RefCell<VecObj>>),
+}
+
+impl Value {
+  pub fn str(s: &str) -> Value {
+    Value::Str(Rc::from(s))
+  }
+
+  /// debugging rendering (bounded in depth and width)
+  pub fn render(&self) -> String {
+    let mut out = String::new();
+    self.render_into(&mut out, 0);
+    out
+  }
+
+  fn render_into(&self, out: &mut String, depth: usize) {
+    const MAX_DEPTH: usize = 24;
+    const MAX_WIDTH: usize = 64;
+    if out.len() > 1 << 16 {
+      out.push('…');
+      return;
+    }
+    match self {
+      Value::Unit => out.push_str("{}"),
+      Value::Int(i) => out.push_str(&i.to_string()),
+      Value::Bool(b) => out.push_str(if *b { "true" } else { "false" }),
+      Value::Str(s) => out.push_str(&format!("{:?}", &**s)),
+      Value::Struct(o) => {
+        out.push_str(&o.meta.name);
+        out.push('{');
+        if depth >= MAX_DEPTH {
+          out.push('…');
+        } else {
+          for (i, f) in o.fields.iter().enumerate() {
+            if i > 0 {
+              out.push_str(", ");
+            }
+            if i >= MAX_WIDTH {
+              out.push('…');
+              break;
+            }
+            if let Some(n) = o.meta.fields.get(i) {
+              out.push_str(n);
+              out.push_str(": ");
+            }
+            f.render_into(out, depth + 1);
+          }
+        }
+        out.push('}');
+      }
+      Value::Variant(o) => {
+        out.push_str(&o.meta.name);
+        out.push('.');
+        match o.meta.variants.get(o.tag as usize) {
+          Some(n) => out.push_str(n),
+          None => out.push_str(&format!("#{}", o.tag)),
+        }
+        out.push('(');
+        if depth >= MAX_DEPTH {
+          out.push('…');
+        } else {
+          for (i, f) in o.fields.iter().enumerate() {
+            if i > 0 {
+              out.push_str(", ");
+            }
+            if i >= MAX_WIDTH {
+              out.push('…');
+              break;
+            }
+            f.render_into(out, depth + 1);
+          }
+        }
+        out.push(')');
+      }
+      Value::Closure(c) => match &c.kind {
+        CloKind::Lambda { env, .. } => out.push_str(&format!("<lambda env={}>", env.len())),
+        CloKind::Member { label, recv, .. } => {
+          out.push_str("<fn ");
+          out.push_str(label);
+          if recv.is_some() {
+            out.push_str(" bound");
+          }
+          out.push('>');
+        }
+      },
+      Value::Vec(v) => match v.try_borrow() {
+        Ok(v) => {
+          out.push_str("Vec[");
+          if depth >= MAX_DEPTH {
+            out.push('…');
+          } else {
+            for (i, f) in v.items.iter().enumerate() {
+              if i > 0 {
+                out.push_str(", ");
+              }
+              if i >= MAX_WIDTH {
+                out.push('…');
+                break;
+              }
+              f.render_into(out, depth + 1);
+            }
+          }
+          out.push(']');
+        }
+        Err(_) => out.push_str("Vec[<borrowed>]"),
+      },
+    }
+  }
+
+  /// value equality for the types on which `==` is defined independently of representation
+  fn primitive_eq(&self, other: &Value) -> Option<bool> {
+    match (self, other) {
+      (Value::Unit, Value::Unit) => Some(true),
+      (Value::Int(a), Value::Int(b)) => Some(a == b),
+      (Value::Bool(a), Value::Bool(b)) => Some(a == b),
+      (Value::Str(a), Value::Str(b)) => Some(a == b),
+      _ => None,
+    }
+  }
+
+  /// Reference identity for heap values: (equal, ambiguous).  Payload-free variants have no
+  /// identity of their own: two such values of the same class are equal iff they are the same
+  /// variant (structural equality and every representation agree on that).  `ambiguous` is set
+  /// when identity says "different" although the values might be structurally equal.
+  fn identity_eq(&self, other: &Value) -> (bool, bool) {
+    match (self, other) {
+      (Value::Struct(a), Value::Struct(b)) => {
+        let same = Rc::ptr_eq(a, b);
+        (same, !same)
+      }
+      (Value::Variant(a), Value::Variant(b)) => {
+        if Rc::ptr_eq(a, b) {
+          (true, false)
+        } else if a.meta.id == b.meta.id && a.tag != b.tag {
+          (false, false)
+        } else if a.meta.id == b.meta.id && a.fields.is_empty() && b.fields.is_empty() {
+          (true, false)
+        } else {
+          (false, true)
+        }
+      }
+      (Value::Closure(a), Value::Closure(b)) => {
+        let same = Rc::ptr_eq(a, b);
+        (same, !same)
+      }
+      (Value::Vec(a), Value::Vec(b)) => {
+        let same = Rc::ptr_eq(a, b);
+        (same, !same)
+      }
+      _ => (false, true),
+    }
+  }
+}
+
+impl std::fmt::Debug for Value {
+  fn fmt(&self, f: &mut std::fmt::Formatter<'_>) -> std::fmt::Result {
+    f.write_str(&self.render())
+  }
+}
+
+// Iterative destruction: releasing a long linked structure must not recurse on the host stack.
+fn drain_values(mut stack: Vec<Value>) {
+  while let Some(v) = stack.pop() {
+    match v {
+      Value::Struct(rc) | Value::Variant(rc) => {
+        if let Ok(mut o) = Rc::try_unwrap(rc) {
+          stack.append(&mut o.fields);
+        }
+      }
+      Value::Closure(rc) => {
+        if let Ok(mut c) = Rc::try_unwrap(rc) {
+          match &mut c.kind {
+            CloKind::Lambda { env, .. } => stack.extend(env.drain(..).map(|(_, v)| v)),
+            CloKind::Member { recv, .. } => {
+              if let Some(r) = recv.take() {
+                stack.push(r)
+              }
+            }
+          }
+        }
+      }
+      Value::Vec(rc) => {
+        if let Ok(cell) = Rc::try_unwrap(rc) {
+          let mut vo = cell.into_inner();
+          stack.append(&mut vo.items);
+        }
+      }
+      Value::Unit | Value::Int(_) | Value::Bool(_) | Value::Str(_) => {}
+    }
+  }
+}
+
+fn is_heap_value(v: &Value) -> bool {
+  matches!(v, Value::Struct(_) | Value::Variant(_) | Value::Closure(_) | Value::Vec(_))
+}
+
+impl Drop for Obj {
+  fn drop(&mut self) {
+    if self.fields.iter().any(is_heap_value) {
+      drain_values(std::mem::take(&mut self.fields));
+    }
+  }
+}
+
+impl Drop for VecObj {
+  fn drop(&mut self) {
+    if self.items.iter().any(is_heap_value) {
+      drain_values(std::mem::take(&mut self.items));
+    }
+  }
+}
+
+impl Drop for Closure {
+  fn drop(&mut self) {
+    match &mut self.kind {
+      CloKind::Lambda { env, .. } => {
+        if env.iter().any(|(_, v)| is_heap_value(v)) {
+          drain_values(env.drain(..).map(|(_, v)| v).collect());
+        }
+      }
+      CloKind::Member { recv, .. } => {
+        if let Some(r) = recv.take() {
+          drain_values(vec![r]);
+        }
+      }
+    }
+  }
+}
+
+/// The escape sequences of the language (spec 2.2): `\n \t \\ \0 \b \f \v \"`; `\r` is accepted
+/// by the lexer as well and given its universal meaning.  `raw` is the literal text as stored in
+/// the AST (the parser has already turned `\"` into `"`).  An unknown escape (the lexer rejects
+/// those) is kept verbatim.
+pub fn unescape_literal(raw: &str) -> String {
+  if !raw.contains('\\') {
+    return raw.to_string();
+  }
+  let mut out = String::with_capacity(raw.len());
+  let mut it = raw.chars();
+  while let Some(c) = it.next() {
+    if c != '\\' {
+      out.push(c);
+      continue;
+    }
+    match it.next() {
+      Some('n') => out.push('\n'),
+      Some('t') => out.push('\t'),
+      Some('\\') => out.push('\\'),
+      Some('0') => out.push('\0'),
+      Some('b') => out.push('\u{8}'),
+      Some('f') => out.push('\u{c}'),
+      Some('v') => out.push('\u{b}'),
+      Some('r') => out.push('\r'),
+      Some('"') => out.push('"'),
+      Some(other) => {
+        out.push('\\');
+        out.push(other);
+      }
+      None => out.push('\\'),
+    }
+  }
+  out
+}
+
+/// canonical decimal numeral of an i32: optional '-', no leading zeros except "0", no '+'
+pub fn parse_canonical_int(s: &str) -> Option<i32> {
+  let digits = s.strip_prefix('-').unwrap_or(s);
+  if digits.is_empty() || digits.len() > 10 || !digits.bytes().all(|b| b.is_ascii_digit()) {
+    return None;
+  }
+  if digits.len() > 1 && digits.starts_with('0') {
+    return None;
+  }
+  if s == "-0" {
+    return None;
+  }
+  s.parse::<i32>().ok()
+}
+
+// ------------------------------------------------------------------------------------------------
+// program tables
+// ------------------------------------------------------------------------------------------------
+
+#[derive(Default)]
+struct FastHasher(u64);
+
+impl Hasher for FastHasher {
+  fn finish(&self) -> u64 {
+    // the multiplication leaves the low bits weak (pointer keys are 8-aligned): rotate
+    self.0.rotate_left(26)
+  }
+  fn write(&mut self, bytes: &[u8]) {
+    for chunk in bytes.chunks(8) {
+      let mut b = [0u8; 8];
+      b[..chunk.len()].copy_from_slice(chunk);
+      self.write_u64(u64::from_le_bytes(b));
+    }
+  }
+  fn write_u64(&mut self, i: u64) {
+    self.0 = (self.0.rotate_left(5) ^ i).wrapping_mul(0x517c_c1b7_2722_0a95);
+  }
+  fn write_u128(&mut self, i: u128) {
+    self.write_u64(i as u64);
+    self.write_u64((i >> 64) as u64);
+  }
+  fn write_usize(&mut self, i: usize) {
+    self.write_u64(i as u64);
+  }
+  fn write_u32(&mut self, i: u32) {
+    self.write_u64(i as u64);
+  }
+  fn write_u8(&mut self, i: u8) {
+    self.write_u64(i as u64);
+  }
+}
+
+type FastMap<K, V> = HashMap<K, V, BuildHasherDefault<FastHasher>>;
+
+enum ClassKind {
+  Struct { fields: Vec<PStr> },
+  Enum { variants: Vec<(PStr, usize)> },
+  Plain,
+}
+
+struct ClassInfo {
+  meta: Rc<ClassMeta>,
+  name: PStr,
+  kind: ClassKind,
+  functions: FastMap<PStr, usize>,
+  methods: FastMap<PStr, usize>,
+}
+
+struct FnInfo<'a> {
+  class: usize,
+  name: PStr,
+  is_method: bool,
+  params: Vec<PStr>,
+  body: &'a E,
+}
+
+struct Program<'a> {
+  classes: Vec<ClassInfo>,
+  class_index: FastMap<(ModuleReference, PStr), usize>,
+  fns: Vec<FnInfo<'a>>,
+}
+
+impl<'a> Program<'a> {
+  fn build(heap: &Heap, checked: &'a HashMap<ModuleReference, Module<T>>) -> Program<'a> {
+    let mut prog =
+      Program { classes: Vec::new(), class_index: FastMap::default(), fns: Vec::new() };
+    // deterministic class numbering
+    let mut modules: Vec<_> = checked.iter().collect();
+    modules.sort_by_key(|(m, _)| **m);
+    for (mod_ref, module) in modules {
+      for toplevel in &module.toplevels {
+        let Toplevel::Class(c) = toplevel else { continue };
+        let class_idx = prog.classes.len();
+        let (kind, field_names, variant_names) = match &c.type_definition {
+          Some(TypeDefinition::Struct { fields, .. }) => (
+            ClassKind::Struct { fields: fields.iter().map(|f| f.name.name).collect() },
+            fields.iter().map(|f| f.name.name.as_str(heap).to_string()).collect(),
+            Vec::new(),
+          ),
+          Some(TypeDefinition::Enum { variants, .. }) => (
+            ClassKind::Enum {
+              variants: variants
+                .iter()
+                .map(|v| {
+                  (
+                    v.name.name,
+                    v.associated_data_types.as_ref().map(|l| l.annotations.len()).unwrap_or(0),
+                  )
+                })
+                .collect(),
+            },
+            Vec::new(),
+            variants.iter().map(|v| v.name.name.as_str(heap).to_string()).collect(),
+          ),
+          None => (ClassKind::Plain, Vec::new(), Vec::new()),
+        };
+        let meta = Rc::new(ClassMeta {
+          id: class_idx as u32,
+          module: mod_ref.pretty_print(heap),
+          name: c.name.name.as_str(heap).to_string(),
+          fields: field_names,
+          variants: variant_names,
+        });
+        let mut info = ClassInfo {
+          meta,
+          name: c.name.name,
+          kind,
+          functions: FastMap::default(),
+          methods: FastMap::default(),
+        };
+        for member in &c.members.members {
+          let ClassMemberDefinition { decl, body } = member;
+          let fn_idx = prog.fns.len();
+          prog.fns.push(FnInfo {
+            class: class_idx,
+            name: decl.name.name,
+            is_method: decl.is_method,
+            params: decl.parameters.parameters.iter().map(|p| p.name.name).collect(),
+            body,
+          });
+          if decl.is_method {
+            info.methods.insert(decl.name.name, fn_idx);
+          } else {
+            info.functions.insert(decl.name.name, fn_idx);
+          }
+        }
+        prog.class_index.insert((*mod_ref, c.name.name), class_idx);
+        prog.classes.push(info);
+      }
+    }
+    prog
+  }
+}
+
+// ------------------------------------------------------------------------------------------------
+// interpreter
+// ------------------------------------------------------------------------------------------------
+
+enum Ctl {
+  End(Ending),
+  /// self tail call: rebind the parameters of the running function and re-enter its body
+  TailCall { this: Option<Value>, args: Vec<Value> },
+}
+
+type R<V> = Result<V, Ctl>;
+
+fn harness<V>(msg: impl Into<String>) -> R<V> {
+  Err(Ctl::End(Ending::Harness(msg.into())))
+}
+
+type Env = Vec<(PStr, Value)>;
+
+struct Interp<'a, 'p> {
+  heap: &'a Heap,
+  prog: &'p Program<'a>,
+  limits: Limits,
+  lines: Vec<String>,
+  ub: UbFlags,
+  stats: RefStats,
+  depth: usize,
+  literal_cache: FastMap<PStr, Rc<str>>,
+  /// call site (address of the MethodAccess node) -> resolved static member
+  static_site_cache: FastMap<usize, Callable>,
+  object_identity_eq: bool,
+  stack_base: usize,
+  stack_budget: usize,
+}
+
+#[inline(always)]
+fn stack_pointer_estimate() -> usize {
+  let marker = 0u8;
+  std::hint::black_box(&marker) as *const u8 as usize
+}
+
+impl<'a, 'p> Interp<'a, 'p> {
+  fn name(&self, p: PStr) -> String {
+    p.as_str(self.heap).to_string()
+  }
+
+  fn fn_label(&self, id: usize) -> String {
+    let f = &self.prog.fns[id];
+    format!("{}.{}", self.prog.classes[f.class].meta.name, self.name(f.name))
+  }
+
+  // ---- calls -----------------------------------------------------------------------------------
+
+  fn enter(&mut self) -> R<()> {
+    self.depth += 1;
+    if self.depth > self.stats.max_depth {
+      self.stats.max_depth = self.depth;
+    }
+    if self.depth > self.limits.max_depth {
+      return Err(Ctl::End(Ending::StackExhausted));
+    }
+    let used = self.stack_base.saturating_sub(stack_pointer_estimate());
+    if used > self.stats.host_stack_bytes {
+      self.stats.host_stack_bytes = used;
+    }
+    if used > self.stack_budget {
+      return Err(Ctl::End(Ending::StackExhausted));
+    }
+    Ok(())
+  }
+
+  #[inline(never)]
+  fn call_fn(&mut self, id: usize, mut this: Option<Value>, mut args: Vec<Value>) -> R<Value> {
+    let prog = self.prog;
+    let f = &prog.fns[id];
+    self.enter()?;
+    let mut env: Env = Vec::with_capacity(args.len() + 6);
+    let result = loop {
+      self.stats.calls += 1;
+      if args.len() != f.params.len() {
+        break harness(format!(
+          "arity mismatch calling {}: {} parameters, {} arguments",
+          self.fn_label(id),
+          f.params.len(),
+          args.len()
+        ));
+      }
+      env.clear();
+      match (f.is_method, this.take()) {
+        (true, Some(t)) => env.push((PStr::THIS, t)),
+        (false, None) => {}
+        (true, None) => break harness(format!("method {} called without receiver", self.fn_label(id))),
+        (false, Some(_)) => {
+          break harness(format!("function {} called with receiver", self.fn_label(id)));
+        }
+      }
+      for (p, a) in f.params.iter().zip(args.drain(..)) {
+        env.push((*p, a));
+      }
+      match self.eval(f.body, &mut env, Some(id)) {
+        Err(Ctl::TailCall { this: t, args: a }) => {
+          self.stats.tail_calls += 1;
+          this = t;
+          args = a;
+        }
+        other => break other,
+      }
+    };
+    self.depth -= 1;
+    result
+  }
+
+  /// invoke a resolved callable; `tail` = the function whose tail position this call is in
+  fn invoke(
+    &mut self,
+    callable: Callable,
+    recv: Option<Value>,
+    args: Vec<Value>,
+    tail: Option<usize>,
+  ) -> R<Value> {
+    match callable {
+      Callable::Fn(id) => {
+        if tail == Some(id) {
+          // self tail call: handled by the loop in call_fn of the running activation
+          return Err(Ctl::TailCall { this: recv, args });
+        }
+        self.call_fn(id, recv, args)
+      }
+      Callable::Ctor { class, tag } => self.construct(class, tag, args),
+      Callable::Builtin(b) => self.call_builtin(b, recv, args),
+    }
+  }
+
+  fn construct(&mut self, class: usize, tag: Option<u32>, args: Vec<Value>) -> R<Value> {
+    let prog = self.prog;
+    let info = &prog.classes[class];
+    match (&info.kind, tag) {
+      (ClassKind::Struct { fields }, None) => {
+        if fields.len() != args.len() {
+          return harness(format!(
+            "{}.init: {} fields, {} arguments",
+            info.meta.name,
+            fields.len(),
+            args.len()
+          ));
+        }
+        Ok(Value::Struct(Rc::new(Obj { meta: info.meta.clone(), tag: 0, fields: args })))
+      }
+      (ClassKind::Enum { variants }, Some(t)) => {
+        let Some((_, arity)) = variants.get(t as usize) else {
+          return harness("variant index out of range");
+        };
+        if *arity != args.len() {
+          return harness(format!(
+            "{}.{}: arity {}, {} arguments",
+            info.meta.name, info.meta.variants[t as usize], arity, args.len()
+          ));
+        }
+        Ok(Value::Variant(Rc::new(Obj { meta: info.meta.clone(), tag: t, fields: args })))
+      }
+      _ => harness(format!("bad constructor for class {}", info.meta.name)),
+    }
+  }
+
+  #[inline(never)]
+  fn call_closure(&mut self, f: Value, args: Vec<Value>) -> R<Value> {
+    let Value::Closure(c) = f else {
+      return harness(format!("call of a non-function value {}", f.render()));
+    };
+    self.stats.closures_called += 1;
+    match &c.kind {
+      CloKind::Lambda { lam, env } => {
+        // SAFETY: `lam` was created from a `&'a expr::Lambda` of the checked AST borrowed for the
+        // whole run by this very interpreter instance (closures cannot enter from outside:
+        // `run_function` rejects closure arguments).
+        let lam: &'a expr::Lambda<T> = unsafe { &**lam };
+        let params = &lam.parameters.parameters;
+        if params.len() != args.len() {
+          return harness(format!(
+            "lambda arity mismatch: {} parameters, {} arguments",
+            params.len(),
+            args.len()
+          ));
+        }
+        self.enter()?;
+        let mut new_env: Env = Vec::with_capacity(env.len() + args.len() + 4);
+        new_env.extend(env.iter().cloned());
+        for (p, a) in params.iter().zip(args) {
+          new_env.push((p.name.name, a));
+        }
+        let r = self.eval(&lam.body, &mut new_env, None);
+        self.depth -= 1;
+        match r {
+          Err(Ctl::TailCall { .. }) => harness("tail call escaped a lambda body"),
+          other => other,
+        }
+      }
+      CloKind::Member { callable, recv, .. } => self.invoke(*callable, recv.clone(), args, None),
+    }
+  }
+
+  // ---- member resolution -----------------------------------------------------------------------
+
+  fn resolve_static(&self, module: ModuleReference, class: PStr, member: PStr) -> R<Callable> {
+    if module == ModuleReference::ROOT {
+      let b = if class == PStr::PROCESS_TYPE {
+        if member == PStr::PRINTLN {
+          Some(Builtin::Println)
+        } else if member == PStr::PANIC {
+          Some(Builtin::Panic)
+        } else {
+          None
+        }
+      } else if class == PStr::STR_TYPE {
+        if member == PStr::FROM_INT { Some(Builtin::FromInt) } else { None }
+      } else if class == PStr::VEC_TYPE {
+        if member == PStr::EMPTY_FN {
+          Some(Builtin::VecEmpty)
+        } else if member == PStr::OF {
+          Some(Builtin::VecOf)
+        } else if member == PStr::WITH_CAPACITY {
+          Some(Builtin::VecWithCapacity)
+        } else {
+          None
+        }
+      } else {
+        None
+      };
+      return match b {
+        Some(b) => Ok(Callable::Builtin(b)),
+        None => harness(format!(
+          "unsupported: builtin function {}.{}",
+          self.name(class),
+          self.name(member)
+        )),
+      };
+    }
+    let Some(&ci) = self.prog.class_index.get(&(module, class)) else {
+      return harness(format!(
+        "unsupported: class {}.{} is not among the checked sources",
+        module.pretty_print(self.heap),
+        self.name(class)
+      ));
+    };
+    let prog = self.prog;
+    let info = &prog.classes[ci];
+    if let Some(&f) = info.functions.get(&member) {
+      return Ok(Callable::Fn(f));
+    }
+    match &info.kind {
+      ClassKind::Struct { .. } if member == PStr::INIT => {
+        return Ok(Callable::Ctor { class: ci, tag: None });
+      }
+      ClassKind::Enum { variants } => {
+        if let Some(i) = variants.iter().position(|(n, _)| *n == member) {
+          return Ok(Callable::Ctor { class: ci, tag: Some(i as u32) });
+        }
+      }
+      _ => {}
+    }
+    harness(format!("no static member {}.{}", info.meta.name, self.name(member)))
+  }
+
+  /// dynamic dispatch on the run-time class of the receiver
+  fn resolve_method(&self, recv: &Value, member: PStr) -> R<Callable> {
+    match recv {
+      Value::Struct(o) | Value::Variant(o) => {
+        let prog = self.prog;
+        let info = &prog.classes[o.meta.id as usize];
+        match info.methods.get(&member) {
+          Some(&f) => Ok(Callable::Fn(f)),
+          None => harness(format!("class {} has no method {}", info.meta.name, self.name(member))),
+        }
+      }
+      Value::Str(_) => {
+        if member == PStr::TO_INT {
+          Ok(Callable::Builtin(Builtin::ToInt))
+        } else {
+          harness(format!("unsupported: Str method {}", self.name(member)))
+        }
+      }
+      Value::Vec(_) => {
+        let b = if member == PStr::LENGTH {
+          Builtin::VecLength
+        } else if member == PStr::CAPACITY {
+          Builtin::VecCapacity
+        } else if member == PStr::RESERVE {
+          Builtin::VecReserve
+        } else if member == PStr::PUSH {
+          Builtin::VecPush
+        } else if member == PStr::POP {
+          Builtin::VecPop
+        } else if member == PStr::GET {
+          Builtin::VecGet
+        } else if member == PStr::SET {
+          Builtin::VecSet
+        } else if member == PStr::STR_EQ {
+          Builtin::VecEq
+        } else {
+          return harness(format!("unsupported: Vec method {}", self.name(member)));
+        };
+        Ok(Callable::Builtin(b))
+      }
+      other => harness(format!(
+        "method {} called on a value without methods: {}",
+        self.name(member),
+        other.render()
+      )),
+    }
+  }
+
+  // ---- builtins --------------------------------------------------------------------------------
+
+  fn println(&mut self, s: &str) -> R<()> {
+    if self.lines.len() >= self.limits.max_lines {
+      return Err(Ctl::End(Ending::StepLimit));
+    }
+    self.lines.push(s.to_string());
+    Ok(())
+  }
+
+  #[inline(never)]
+  fn call_builtin(&mut self, b: Builtin, recv: Option<Value>, mut args: Vec<Value>) -> R<Value> {
+    fn arity<V>(b: Builtin, args: &[V], n: usize) -> R<()> {
+      if args.len() == n { Ok(()) } else { harness(format!("builtin {b:?}: bad arity")) }
+    }
+    fn int_arg(b: Builtin, v: &Value) -> R<i32> {
+      match v {
+        Value::Int(i) => Ok(*i),
+        other => harness(format!("builtin {b:?}: expected int, got {}", other.render())),
+      }
+    }
+    fn str_arg(b: Builtin, v: &Value) -> R<Rc<str>> {
+      match v {
+        Value::Str(s) => Ok(s.clone()),
+        other => harness(format!("builtin {b:?}: expected Str, got {}", other.render())),
+      }
+    }
+    fn vec_recv(b: Builtin, v: &Option<Value>) -> R<Rc<RefCell<VecObj>>> {
+      match v {
+        Some(Value::Vec(v)) => Ok(v.clone()),
+        _ => harness(format!("builtin {b:?}: receiver is not a Vec")),
+      }
+    }
+    match b {
+      Builtin::Println => {
+        arity(b, &args, 1)?;
+        let s = str_arg(b, &args[0])?;
+        self.println(&s)?;
+        Ok(Value::Unit)
+      }
+      Builtin::Panic => {
+        arity(b, &args, 1)?;
+        let s = str_arg(b, &args[0])?;
+        Err(Ctl::End(Ending::Panic(s.to_string())))
+      }
+      Builtin::FromInt => {
+        arity(b, &args, 1)?;
+        let i = int_arg(b, &args[0])?;
+        Ok(Value::Str(Rc::from(i.to_string())))
+      }
+      Builtin::ToInt => {
+        arity(b, &args, 0)?;
+        let Some(Value::Str(s)) = &recv else {
+          return harness("toInt: receiver is not a Str");
+        };
+        match parse_canonical_int(s) {
+          Some(i) => Ok(Value::Int(i)),
+          None => {
+            // implementation defined (spec 10.1): flag it, continue with 0
+            self.ub.bad_to_int = true;
+            Ok(Value::Int(0))
+          }
+        }
+      }
+      Builtin::VecEmpty => {
+        arity(b, &args, 0)?;
+        Ok(Value::Vec(Rc::new(RefCell::new(VecObj { items: Vec::new(), cap: 0 }))))
+      }
+      Builtin::VecOf => {
+        arity(b, &args, 1)?;
+        let v = args.pop().unwrap();
+        Ok(Value::Vec(Rc::new(RefCell::new(VecObj { items: vec![v], cap: 1 }))))
+      }
+      Builtin::VecWithCapacity => {
+        arity(b, &args, 1)?;
+        // "sized to hold at least n elements": any n <= 0 is trivially satisfied
+        let n = int_arg(b, &args[0])?.max(0) as usize;
+        Ok(Value::Vec(Rc::new(RefCell::new(VecObj { items: Vec::new(), cap: n }))))
+      }
+      Builtin::VecLength => {
+        arity(b, &args, 0)?;
+        let v = vec_recv(b, &recv)?;
+        let n = v.borrow().items.len();
+        Ok(Value::Int(n as i32))
+      }
+      Builtin::VecCapacity => {
+        arity(b, &args, 0)?;
+        let v = vec_recv(b, &recv)?;
+        // advisory value (spec 5.12: "backends may round up"): flag the observation
+        self.ub.capacity_observed = true;
+        let v = v.borrow();
+        Ok(Value::Int(v.cap.max(v.items.len()) as i32))
+      }
+      Builtin::VecReserve => {
+        arity(b, &args, 1)?;
+        let v = vec_recv(b, &recv)?;
+        let n = int_arg(b, &args[0])?.max(0) as usize;
+        let mut v = v.borrow_mut();
+        if v.cap < n {
+          v.cap = n;
+        }
+        Ok(Value::Unit)
+      }
+      Builtin::VecPush => {
+        arity(b, &args, 1)?;
+        let v = vec_recv(b, &recv)?;
+        let x = args.pop().unwrap();
+        let mut v = v.borrow_mut();
+        if v.items.len() >= i32::MAX as usize {
+          return harness("Vec larger than i32::MAX");
+        }
+        v.items.push(x);
+        if v.items.len() > v.cap {
+          v.cap = (v.cap * 2).max(v.items.len()).max(4);
+        }
+        Ok(Value::Unit)
+      }
+      Builtin::VecPop => {
+        arity(b, &args, 0)?;
+        let v = vec_recv(b, &recv)?;
+        let popped = v.borrow_mut().items.pop();
+        match popped {
+          Some(x) => Ok(x),
+          None => Err(Ctl::End(Ending::VecBounds)),
+        }
+      }
+      Builtin::VecGet => {
+        arity(b, &args, 1)?;
+        let v = vec_recv(b, &recv)?;
+        let i = int_arg(b, &args[0])?;
+        let v = v.borrow();
+        if i < 0 || i as usize >= v.items.len() {
+          return Err(Ctl::End(Ending::VecBounds));
+        }
+        Ok(v.items[i as usize].clone())
+      }
+      Builtin::VecSet => {
+        arity(b, &args, 2)?;
+        let v = vec_recv(b, &recv)?;
+        let i = int_arg(b, &args[0])?;
+        let x = args.pop().unwrap();
+        let mut v = v.borrow_mut();
+        if i < 0 || i as usize >= v.items.len() {
+          return Err(Ctl::End(Ending::VecBounds));
+        }
+        v.items[i as usize] = x;
+        Ok(Value::Unit)
+      }
+      Builtin::VecEq => {
+        arity(b, &args, 1)?;
+        let v = vec_recv(b, &recv)?;
+        let Value::Vec(o) = &args[0] else {
+          return harness("Vec.eq: argument is not a Vec");
+        };
+        if Rc::ptr_eq(&v, o) {
+          return Ok(Value::Bool(true));
+        }
+        let (a, c) = (v.borrow(), o.borrow());
+        if a.items.len() != c.items.len() {
+          return Ok(Value::Bool(false));
+        }
+        let mut eq = true;
+        for (x, y) in a.items.iter().zip(c.items.iter()) {
+          let same = match x.primitive_eq(y) {
+            Some(r) => r,
+            None => {
+              let (same, ambiguous) = x.identity_eq(y);
+              self.stats.object_eq += 1;
+              self.stats.ambiguous_object_eq += ambiguous as u64;
+              same
+            }
+          };
+          if !same {
+            eq = false;
+            break;
+          }
+        }
+        Ok(Value::Bool(eq))
+      }
+    }
+  }
+
+  // ---- patterns --------------------------------------------------------------------------------
+
+  /// try to match `v` against `p`, pushing bindings on `env`.  On failure the caller truncates
+  /// `env` back (bindings pushed by a partially matched pattern are discarded).
+  fn match_pattern(&mut self, p: &'a Pat, v: &Value, env: &mut Env) -> R<bool> {
+    match p {
+      Pat::Wildcard { .. } => Ok(true),
+      Pat::Id(id, _) => {
+        env.push((id.name, v.clone()));
+        Ok(true)
+      }
+      Pat::Tuple(tp) => {
+        let Value::Struct(o) = v else {
+          return harness(format!("tuple pattern against non-tuple value {}", v.render()));
+        };
+        if o.fields.len() != tp.elements.len() {
+          return harness(format!(
+            "tuple pattern of size {} against {} with {} fields",
+            tp.elements.len(),
+            o.meta.name,
+            o.fields.len()
+          ));
+        }
+        for (el, fv) in tp.elements.iter().zip(o.fields.iter()) {
+          if !self.match_pattern(&el.pattern, fv, env)? {
+            return Ok(false);
+          }
+        }
+        Ok(true)
+      }
+      Pat::Object { elements, .. } => {
+        let Value::Struct(o) = v else {
+          return harness(format!("struct pattern against non-struct value {}", v.render()));
+        };
+        let prog = self.prog;
+        let info = &prog.classes[o.meta.id as usize];
+        let ClassKind::Struct { fields } = &info.kind else {
+          return harness("struct pattern against a non-struct class");
+        };
+        for el in elements {
+          // fields are matched by NAME (spec 8.5)
+          let Some(idx) = fields.iter().position(|f| *f == el.field_name.name) else {
+            return harness(format!(
+              "class {} has no field {}",
+              info.meta.name,
+              self.name(el.field_name.name)
+            ));
+          };
+          if !self.match_pattern(&el.pattern, &o.fields[idx], env)? {
+            return Ok(false);
+          }
+        }
+        Ok(true)
+      }
+      Pat::Variant(vp) => {
+        let Value::Variant(o) = v else {
+          return harness(format!("variant pattern against non-enum value {}", v.render()));
+        };
+        let prog = self.prog;
+        let info = &prog.classes[o.meta.id as usize];
+        let ClassKind::Enum { variants } = &info.kind else {
+          return harness("variant pattern against a non-enum class");
+        };
+        let Some((tag_name, _)) = variants.get(o.tag as usize) else {
+          return harness("variant tag out of range");
+        };
+        if !variants.iter().any(|(n, _)| *n == vp.tag.name) {
+          return harness(format!(
+            "class {} has no variant {}",
+            info.meta.name,
+            self.name(vp.tag.name)
+          ));
+        }
+        if *tag_name != vp.tag.name {
+          return Ok(false);
+        }
+        if let Some(data) = &vp.data_variables {
+          if data.elements.len() != o.fields.len() {
+            return harness(format!(
+              "variant pattern {}: {} sub-patterns for {} payload values",
+              self.name(vp.tag.name),
+              data.elements.len(),
+              o.fields.len()
+            ));
+          }
+          for (el, fv) in data.elements.iter().zip(o.fields.iter()) {
+            if !self.match_pattern(&el.pattern, fv, env)? {
+              return Ok(false);
+            }
+          }
+        }
+        Ok(true)
+      }
+      Pat::Or { patterns, .. } => {
+        // first matching alternative determines the bindings (spec 8.9)
+        let mark = env.len();
+        for alt in patterns {
+          if self.match_pattern(alt, v, env)? {
+            return Ok(true);
+          }
+          env.truncate(mark);
+        }
+        Ok(false)
+      }
+    }
+  }
+
+  // ---- expressions -----------------------------------------------------------------------------
+
+  fn lookup(&self, env: &Env, name: PStr) -> R<Value> {
+    for (n, v) in env.iter().rev() {
+      if *n == name {
+        return Ok(v.clone());
+      }
+    }
+    harness(format!("unbound variable {}", self.name(name)))
+  }
+
+  fn eval_args(&mut self, list: &'a expr::ParenthesizedExpressionList<T>, env: &mut Env) -> R<Vec<Value>> {
+    let mut out = Vec::with_capacity(list.expressions.len());
+    for a in &list.expressions {
+      out.push(self.eval(a, env, None)?);
+    }
+    Ok(out)
+  }
+
+  /// `tail`: Some(f) iff `e` is in tail position of the class member `f` being executed
+  fn eval(&mut self, e: &'a E, env: &mut Env, tail: Option<usize>) -> R<Value> {
+    self.stats.steps += 1;
+    if self.stats.steps > self.limits.max_steps {
+      return Err(Ctl::End(Ending::StepLimit));
+    }
+    match e {
+      E::Literal(_, Literal::Int(i)) => Ok(Value::Int(*i)),
+      E::Literal(_, Literal::Bool(b)) => Ok(Value::Bool(*b)),
+      E::Literal(_, lit) => self.eval_literal(lit),
+      E::LocalId(_, id) => self.lookup(env, id.name),
+      E::ClassId(_, _, id) => harness(format!(
+        "unsupported: class reference {} used as a value",
+        self.name(id.name)
+      )),
+      E::Tuple(_, list) => self.eval_tuple(list, env),
+      E::FieldAccess(fa) => self.eval_field_access(fa, env),
+      E::MethodAccess(ma) => self.eval_method_access(ma, env),
+      E::Unary(u) => self.eval_unary(u, env),
+      E::Call(c) => self.eval_call(c, env, tail),
+      E::Binary(b) => self.eval_binary(b, env, tail),
+      E::IfElse(ie) => self.eval_if_else(ie, env, tail),
+      E::Match(m) => self.eval_match(m, env, tail),
+      E::Lambda(l) => Ok(Value::Closure(Rc::new(Closure {
+        // lambdas capture their lexical environment; all bindings are immutable, so capturing
+        // the values is the same as capturing the variables
+        kind: CloKind::Lambda { lam: l as *const _, env: env.clone() },
+      }))),
+      E::Block(b) => self.eval_block(b, env, tail),
+    }
+  }
+
+  #[inline(never)]
+  fn eval_literal(&mut self, lit: &Literal) -> R<Value> {
+    match lit {
+      Literal::Bool(b) => Ok(Value::Bool(*b)),
+      Literal::Int(i) => Ok(Value::Int(*i)),
+      Literal::String(p) => {
+        if let Some(s) = self.literal_cache.get(p) {
+          let s = s.clone();
+          // keep the statistics exact even on cache hits
+          let raw = p.as_str(self.heap);
+          if raw.contains('\\') {
+            self.stats.escape_literals += 1;
+          }
+          if raw.contains('"') {
+            self.stats.quote_literals += 1;
+          }
+          return Ok(Value::Str(s));
+        }
+        let raw = p.as_str(self.heap);
+        if raw.contains('\\') {
+          self.stats.escape_literals += 1;
+        }
+        if raw.contains('"') {
+          self.stats.quote_literals += 1;
+        }
+        let s: Rc<str> = Rc::from(unescape_literal(raw));
+        self.literal_cache.insert(*p, s.clone());
+        Ok(Value::Str(s))
+      }
+    }
+  }
+
+  #[inline(never)]
+  fn eval_tuple(&mut self, list: &'a expr::ParenthesizedExpressionList<T>, env: &mut Env) -> R<Value> {
+    let n = list.expressions.len();
+    let class_name = match n {
+      2 => PStr::PAIR,
+      3 => PStr::TRIPLE,
+      4 => PStr::TUPLE_4,
+      5 => PStr::TUPLE_5,
+      6 => PStr::TUPLE_6,
+      7 => PStr::TUPLE_7,
+      8 => PStr::TUPLE_8,
+      9 => PStr::TUPLE_9,
+      10 => PStr::TUPLE_10,
+      11 => PStr::TUPLE_11,
+      12 => PStr::TUPLE_12,
+      13 => PStr::TUPLE_13,
+      14 => PStr::TUPLE_14,
+      15 => PStr::TUPLE_15,
+      16 => PStr::TUPLE_16,
+      _ => return harness(format!("unsupported: tuple of size {n}")),
+    };
+    let Some(&ci) = self.prog.class_index.get(&(ModuleReference::STD_TUPLES, class_name)) else {
+      return harness(format!(
+        "unsupported: std.tuples.{} is not among the checked sources",
+        self.name(class_name)
+      ));
+    };
+    let fields = self.eval_args(list, env)?;
+    self.construct(ci, None, fields)
+  }
+
+  #[inline(never)]
+  fn eval_field_access(&mut self, fa: &'a expr::FieldAccess<T>, env: &mut Env) -> R<Value> {
+    let obj = self.eval(&fa.object, env, None)?;
+    let Value::Struct(o) = &obj else {
+      return harness(format!(
+        "field {} of a non-struct value {}",
+        self.name(fa.field_name.name),
+        obj.render()
+      ));
+    };
+    let prog = self.prog;
+    let info = &prog.classes[o.meta.id as usize];
+    let ClassKind::Struct { fields } = &info.kind else {
+      return harness("field access on a non-struct class");
+    };
+    match fields.iter().position(|f| *f == fa.field_name.name) {
+      Some(i) => Ok(o.fields[i].clone()),
+      None => harness(format!(
+        "class {} has no field {}",
+        info.meta.name,
+        self.name(fa.field_name.name)
+      )),
+    }
+  }
+
+  /// `Class.function` / `obj.method` used as a value
+  #[inline(never)]
+  fn eval_method_access(&mut self, ma: &'a expr::MethodAccess<T>, env: &mut Env) -> R<Value> {
+    let member = ma.method_name.name;
+    if let E::ClassId(_, module, class) = &*ma.object {
+      let callable = self.resolve_static(*module, class.name, member)?;
+      let label = format!("{}.{}", self.name(class.name), self.name(member));
+      return Ok(Value::Closure(Rc::new(Closure {
+        kind: CloKind::Member { callable, recv: None, label },
+      })));
+    }
+    let recv = self.eval(&ma.object, env, None)?;
+    let callable = self.resolve_method(&recv, member)?;
+    let label = format!("_.{}", self.name(member));
+    Ok(Value::Closure(Rc::new(Closure {
+      kind: CloKind::Member { callable, recv: Some(recv), label },
+    })))
+  }
+
+  #[inline(never)]
+  fn eval_unary(&mut self, u: &'a expr::Unary<T>, env: &mut Env) -> R<Value> {
+    let v = self.eval(&u.argument, env, None)?;
+    match (u.operator, v) {
+      (expr::UnaryOperator::NOT, Value::Bool(b)) => Ok(Value::Bool(!b)),
+      (expr::UnaryOperator::NEG, Value::Int(i)) => {
+        if i == i32::MIN {
+          self.ub.overflow = true;
+        }
+        Ok(Value::Int(i.wrapping_neg()))
+      }
+      (op, v) => harness(format!("unary {} applied to {}", op.kind_str(), v.render())),
+    }
+  }
+
+  #[inline(never)]
+  fn eval_call(&mut self, c: &'a expr::Call<T>, env: &mut Env, tail: Option<usize>) -> R<Value> {
+    // Evaluation order: callee first, then the arguments left to right.  (Spec 6.7.5 / 6.15 say
+    // the callee is evaluated after the arguments; the implementation and its e2e snapshot
+    // evaluate it first.  The harness follows the implementation here by decision.)
+    match &*c.callee {
+      E::MethodAccess(ma) => {
+        let member = ma.method_name.name;
+        if let E::ClassId(_, module, class) = &*ma.object {
+          // static function / constructor / builtin
+          self.stats.steps += 1;
+          let site = ma as *const expr::MethodAccess<T> as usize;
+          let callable = match self.static_site_cache.get(&site) {
+            Some(c) => *c,
+            None => {
+              let c = self.resolve_static(*module, class.name, member)?;
+              self.static_site_cache.insert(site, c);
+              c
+            }
+          };
+          let args = self.eval_args(&c.arguments, env)?;
+          self.invoke(callable, None, args, tail)
+        } else {
+          // method call: receiver, then arguments; dispatch on the run-time class of the receiver
+          self.stats.steps += 1;
+          let recv = self.eval(&ma.object, env, None)?;
+          let args = self.eval_args(&c.arguments, env)?;
+          let callable = self.resolve_method(&recv, member)?;
+          self.invoke(callable, Some(recv), args, tail)
+        }
+      }
+      callee => {
+        let f = self.eval(callee, env, None)?;
+        let args = self.eval_args(&c.arguments, env)?;
+        self.call_closure(f, args)
+      }
+    }
+  }
+
+  fn arith_trap<V>(&mut self) -> R<V> {
+    self.ub.div_zero = true;
+    Err(Ctl::End(Ending::ArithTrap("div by zero".to_string())))
+  }
+
+  #[inline(never)]
+  fn eval_binary(&mut self, b: &'a expr::Binary<T>, env: &mut Env, tail: Option<usize>) -> R<Value> {
+    use expr::BinaryOperator as Op;
+    // short-circuit operators: the right operand is evaluated only if needed, and its value is
+    // then the value of the whole expression
+    match b.operator {
+      Op::AND => {
+        return match self.eval(&b.e1, env, None)? {
+          Value::Bool(false) => Ok(Value::Bool(false)),
+          Value::Bool(true) => self.eval(&b.e2, env, tail),
+          v => harness(format!("&& applied to {}", v.render())),
+        };
+      }
+      Op::OR => {
+        return match self.eval(&b.e1, env, None)? {
+          Value::Bool(true) => Ok(Value::Bool(true)),
+          Value::Bool(false) => self.eval(&b.e2, env, tail),
+          v => harness(format!("|| applied to {}", v.render())),
+        };
+      }
+      _ => {}
+    }
+    let l = self.eval(&b.e1, env, None)?;
+    let r = self.eval(&b.e2, env, None)?;
+    match b.operator {
+      Op::EQ | Op::NE => {
+        let eq = match l.primitive_eq(&r) {
+          Some(eq) => eq,
+          None => {
+            if !self.object_identity_eq {
+              return Err(Ctl::End(Ending::Harness("== on non-primitive".to_string())));
+            }
+            let (same, ambiguous) = l.identity_eq(&r);
+            self.stats.object_eq += 1;
+            self.stats.ambiguous_object_eq += ambiguous as u64;
+            same
+          }
+        };
+        Ok(Value::Bool(if b.operator == Op::EQ { eq } else { !eq }))
+      }
+      Op::CONCAT => match (&l, &r) {
+        (Value::Str(a), Value::Str(c)) => {
+          let mut s = String::with_capacity(a.len() + c.len());
+          s.push_str(a);
+          s.push_str(c);
+          Ok(Value::Str(Rc::from(s)))
+        }
+        _ => harness(format!(":: applied to {} and {}", l.render(), r.render())),
+      },
+      op => {
+        let (Value::Int(x), Value::Int(y)) = (&l, &r) else {
+          return harness(format!(
+            "{} applied to {} and {}",
+            op.kind_str(),
+            l.render(),
+            r.render()
+          ));
+        };
+        let (x, y) = (*x, *y);
+        Ok(match op {
+          Op::PLUS => {
+            let (v, o) = x.overflowing_add(y);
+            self.ub.overflow |= o;
+            Value::Int(v)
+          }
+          Op::MINUS => {
+            let (v, o) = x.overflowing_sub(y);
+            self.ub.overflow |= o;
+            Value::Int(v)
+          }
+          Op::MUL => {
+            let (v, o) = x.overflowing_mul(y);
+            self.ub.overflow |= o;
+            Value::Int(v)
+          }
+          Op::DIV => {
+            if y == 0 || (x == i32::MIN && y == -1) {
+              return self.arith_trap();
+            }
+            Value::Int(x.wrapping_div(y))
+          }
+          Op::MOD => {
+            if y == 0 || (x == i32::MIN && y == -1) {
+              return self.arith_trap();
+            }
+            Value::Int(x.wrapping_rem(y))
+          }
+          Op::LT => Value::Bool(x < y),
+          Op::LE => Value::Bool(x <= y),
+          Op::GT => Value::Bool(x > y),
+          Op::GE => Value::Bool(x >= y),
+          Op::EQ | Op::NE | Op::AND | Op::OR | Op::CONCAT => {
+            return harness("unreachable binary operator");
+          }
+        })
+      }
+    }
+  }
+
+  #[inline(never)]
+  fn eval_if_else(&mut self, ie: &'a expr::IfElse<T>, env: &mut Env, tail: Option<usize>) -> R<Value> {
+    let mark = env.len();
+    let taken = match &*ie.condition {
+      expr::IfElseCondition::Expression(c) => match self.eval(c, env, None)? {
+        Value::Bool(b) => b,
+        v => return harness(format!("if condition is {}", v.render())),
+      },
+      expr::IfElseCondition::Guard(p, e) => {
+        let v = self.eval(e, env, None)?;
+        let m = self.match_pattern(p, &v, env)?;
+        if !m {
+          env.truncate(mark);
+        }
+        m
+      }
+    };
+    let r = if taken {
+      // pattern bindings (if any) are in scope of the first branch only
+      self.eval_block(&ie.e1, env, tail)
+    } else {
+      match &*ie.e2 {
+        expr::IfElseOrBlock::IfElse(inner) => {
+          self.stats.steps += 1;
+          self.eval_if_else(inner, env, tail)
+        }
+        expr::IfElseOrBlock::Block(b) => self.eval_block(b, env, tail),
+      }
+    };
+    env.truncate(mark);
+    r
+  }
+
+  #[inline(never)]
+  fn eval_match(&mut self, m: &'a expr::Match<T>, env: &mut Env, tail: Option<usize>) -> R<Value> {
+    self.stats.matches += 1;
+    let v = self.eval(&m.matched, env, None)?;
+    let mark = env.len();
+    // arms are tried in order, the first matching arm is selected
+    for case in &m.cases {
+      if self.match_pattern(&case.pattern, &v, env)? {
+        let r = self.eval(&case.body, env, tail);
+        env.truncate(mark);
+        return r;
+      }
+      env.truncate(mark);
+    }
+    Err(Ctl::End(Ending::NoArmMatched))
+  }
+
+  #[inline(never)]
+  fn eval_block(&mut self, b: &'a expr::Block<T>, env: &mut Env, tail: Option<usize>) -> R<Value> {
+    let mark = env.len();
+    for s in &b.statements {
+      match s {
+        expr::Statement::Declaration(d) => {
+          let v = self.eval(&d.assigned_expression, env, None)?;
+          // bindings are pushed after the right-hand side is evaluated: `let x = x + 1` reads the
+          // previous x; later lookups find the newest binding (shadowing)
+          let m = env.len();
+          if !self.match_pattern(&d.pattern, &v, env)? {
+            env.truncate(m);
+            return Err(Ctl::End(Ending::NoArmMatched));
+          }
+        }
+        expr::Statement::Expression(e) => {
+          self.eval(e, env, None)?;
+        }
+      }
+    }
+    let r = match &b.expression {
+      Some(e) => self.eval(e, env, tail),
+      None => Ok(Value::Unit),
+    };
+    env.truncate(mark);
+    r
+  }
+}
+
+// ------------------------------------------------------------------------------------------------
+// driver
+// ------------------------------------------------------------------------------------------------
+
+/// Moves non-`Send` data (Rc based values, plain references) to the interpreter thread and back.
+/// SAFETY argument: the spawning thread blocks in `join` for the whole life of the interpreter
+/// thread, so there is never concurrent access; spawn/join give the happens-before edges.
+struct AssertSend<V>(V);
+unsafe impl<V> Send for AssertSend<V> {}
+impl<V> AssertSend<V> {
+  fn into_inner(self) -> V {
+    self.0
+  }
+}
+
+enum Entry<'s> {
+  Main(ModuleReference),
+  Function { module: ModuleReference, class: &'s str, function: &'s str, args: Vec<Value> },
+}
+
+/// `==` / `!=` on class instances, functions and Vec.  The corpus (std.map, used by
+/// tests.AllTests) relies on it as a physical-equality shortcut, so it is implemented as reference
+/// identity (see `Value::identity_eq`) and counted in `RefStats::{object_eq, ambiguous_object_eq}`.
+/// With `false` such a comparison ends the run with `Ending::Harness("== on non-primitive")`.
+const OBJECT_IDENTITY_EQ: bool = true;
+
+const STACK_SIZES: [usize; 5] = [2 << 30, 1 << 30, 512 << 20, 256 << 20, 64 << 20];
+
+fn run_entry(
+  heap: &Heap,
+  checked: &HashMap<ModuleReference, Module<T>>,
+  entry: Entry<'_>,
+  limits: &Limits,
+) -> (Trace, Option<Value>, RefStats) {
+  let limits = *limits;
+  let mut payload = Some(AssertSend((heap, checked, entry)));
+  let mut last_error = String::new();
+  for stack_size in STACK_SIZES {
+    // if spawning fails the closure never runs and the payload is still in `payload`
+    let outcome = std::thread::scope(|scope| {
+      let slot = &mut payload;
+      let builder =
+        std::thread::Builder::new().name("refint".to_string()).stack_size(stack_size);
+      let spawned = builder.spawn_scoped(scope, move || {
+        let (heap, checked, entry) = slot.take().expect("payload").into_inner();
+        AssertSend(interpret(heap, checked, entry, limits, stack_size))
+      });
+      match spawned {
+        Ok(handle) => Ok(handle.join().map(|r| r.into_inner())),
+        Err(e) => Err(e.to_string()),
+      }
+    });
+    match outcome {
+      Ok(Ok(result)) => return result,
+      Ok(Err(panic)) => {
+        let msg = if let Some(s) = panic.downcast_ref::<&str>() {
+          s.to_string()
+        } else if let Some(s) = panic.downcast_ref::<String>() {
+          s.clone()
+        } else {
+          "unknown panic".to_string()
+        };
+        return (
+          Trace::harness(format!("reference interpreter panicked: {msg}")),
+          None,
+          RefStats::default(),
+        );
+      }
+      Err(msg) => {
+        last_error = msg;
+        if payload.is_none() {
+          break;
+        }
+      }
+    }
+  }
+  (
+    Trace::harness(format!("cannot spawn interpreter thread: {last_error}")),
+    None,
+    RefStats::default(),
+  )
+}
+
+fn interpret(
+  heap: &Heap,
+  checked: &HashMap<ModuleReference, Module<T>>,
+  entry: Entry<'_>,
+  limits: Limits,
+  stack_size: usize,
+) -> (Trace, Option<Value>, RefStats) {
+  let prog = Program::build(heap, checked);
+  let mut interp = Interp {
+    heap,
+    prog: &prog,
+    limits,
+    lines: Vec::new(),
+    ub: UbFlags::default(),
+    stats: RefStats::default(),
+    depth: 0,
+    literal_cache: FastMap::default(),
+    static_site_cache: FastMap::default(),
+    object_identity_eq: OBJECT_IDENTITY_EQ,
+    stack_base: stack_pointer_estimate(),
+    stack_budget: stack_size - stack_size / 16,
+  };
+  let outcome: R<Value> = (|| {
+    let (module, class_name, fn_name, args) = match entry {
+      Entry::Main(m) => (m, "Main".to_string(), "main".to_string(), Vec::new()),
+      Entry::Function { module, class, function, args } => {
+        (module, class.to_string(), function.to_string(), args)
+      }
+    };
+    for a in &args {
+      if !matches!(a, Value::Unit | Value::Int(_) | Value::Bool(_) | Value::Str(_)) {
+        return harness("run_function: only unit/int/bool/Str arguments are supported");
+      }
+    }
+    if !checked.contains_key(&module) {
+      return harness(format!("module {} is not among the checked sources", module.pretty_print(heap)));
+    }
+    let Some(ci) = prog.classes.iter().enumerate().position(|(i, c)| {
+      c.meta.name == class_name && prog.class_index.get(&(module, c.name)) == Some(&i)
+    }) else {
+      return harness(format!("no class {class_name} in module {}", module.pretty_print(heap)));
+    };
+    let Some((_, &fi)) = prog.classes[ci]
+      .functions
+      .iter()
+      .find(|(n, _)| n.as_str(heap) == fn_name)
+    else {
+      return harness(format!("no function {class_name}.{fn_name}"));
+    };
+    interp.call_fn(fi, None, args)
+  })();
+  let (ending, value) = match outcome {
+    Ok(v) => (Ending::Return, Some(v)),
+    Err(Ctl::End(e)) => (e, None),
+    Err(Ctl::TailCall { .. }) => (Ending::Harness("tail call escaped to top level".into()), None),
+  };
+  let stats = std::mem::take(&mut interp.stats);
+  let lines = std::mem::take(&mut interp.lines);
+  let ub = interp.ub.clone();
+  drop(interp);
+  let trace = Trace { lines, ending, ub, steps: stats.steps };
+  (trace, value, stats)
+}
+
+/// run `Main.main()` of `entry_module`
+pub fn run(
+  heap: &Heap,
+  checked: &HashMap<ModuleReference, Module<Arc<Type>>>,
+  entry_module: ModuleReference,
+  limits: &Limits,
+) -> (Trace, RefStats) {
+  let (t, _, s) = run_entry(heap, checked, Entry::Main(entry_module), limits);
+  (t, s)
+}
+
+/// call an arbitrary static function `class.function(args)` of `module`; the value is returned
+/// when the run ends with `Ending::Return`.  Only unit/int/bool/Str arguments are accepted.
+pub fn run_function(
+  heap: &Heap,
+  checked: &HashMap<ModuleReference, Module<Arc<Type>>>,
+  module: ModuleReference,
+  class: &str,
+  function: &str,
+  args: Vec<Value>,
+  limits: &Limits,
+) -> (Trace, Option<Value>, RefStats) {
+  run_entry(heap, checked, Entry::Function { module, class, function, args }, limits)
+}
